@@ -1,9 +1,305 @@
-/- C12 — placeholder while the proof is built (statement first) -/
-import AgpTpf.Model.Lookup
+/-
+  C12 — Overlap lookup equals a brute-force scan of the scaffold.
+
+  `IndexedAssembly.find_overlaps` (indexed_assembly.py; model `findOverlaps` in Model/Lookup.lean: cumulative
+  index, binary search, extension of the hit to both sides, stripping of leading/trailing gap rows) returns, for
+  EVERY non-empty scaffold with non-negative row lengths and EVERY query, exactly what the independent
+  brute-force specification `bruteForce` below returns — and never raises.
+
+  Helper lemmas: AgpTpf/Proofs/C12.lean.
+-/
+import AgpTpf.Proofs.C12
 namespace AgpTpf.C12
 open AgpTpf
-theorem cumEnds_length (acc : Int) (rows : List Row) : (cumEnds acc rows).length = rows.length := by
-  induction rows generalizing acc with
-  | nil => rfl
-  | cons r rs ih => simp [cumEnds, ih]
+
+/-! ### the brute-force specification (independent of the index / search machinery) -/
+
+/-- scaffold coordinates (1-based, closed) of row `k`: `(1 + Σ_{i<k} length, Σ_{i≤k} length)` -/
+def rowSpan (rows : List Row) (k : Nat) : Int × Int :=
+  (1 + rowsLength (rows.take k), rowsLength (rows.take (k + 1)))
+
+/-- row `k` exists, is a FRAGMENT row and its span intersects the query `[a, b]` -/
+def meets (rows : List Row) (a b : Int) (k : Nat) : Bool :=
+  match rows[k]? with
+  | some (.frag _) => decide ((rowSpan rows k).1 ≤ b ∧ a ≤ (rowSpan rows k).2)
+  | _ => false
+
+/-- all indices of rows meeting the query, ascending: a plain scan over the whole scaffold -/
+def meeting (rows : List Row) (a b : Int) : List Nat :=
+  (List.range rows.length).filter (meets rows a b)
+
+/-- `none` when no fragment row meets the query; else, with `i` the least and `j` the greatest meeting index,
+    the contiguous slice of rows `i..j` (gaps in between included) with the scaffold coordinates of its ends. -/
+def bruteForce (rows : List Row) (bait : Fragment) : Option OverlapResult :=
+  let hits := meeting rows bait.start bait.stop
+  match hits.head?, hits.getLast? with
+  | some i, some j =>
+    some { bait := bait, start := (rowSpan rows i).1, stop := (rowSpan rows j).2,
+           rows := (rows.drop i).take (j + 1 - i), name := "matches".toList }
+  | _, _ => none
+
+/-! ### what the specification says (sanity lemmas about `bruteForce` itself) -/
+
+theorem meets_iff (rows : List Row) (a b : Int) (k : Nat) :
+    meets rows a b k = true ↔
+      ∃ f, rows[k]? = some (.frag f) ∧ (rowSpan rows k).1 ≤ b ∧ a ≤ (rowSpan rows k).2 := by
+  unfold meets
+  split
+  · next f h => simp [h]
+  · next h =>
+    constructor
+    · intro h'; cases h'
+    · rintro ⟨f, hf, -⟩; exact absurd hf (h f)
+
+theorem mem_meeting (rows : List Row) (a b : Int) (k : Nat) :
+    k ∈ meeting rows a b ↔ meets rows a b k = true := by
+  unfold meeting
+  simp only [List.mem_filter, List.mem_range, and_iff_right_iff_imp]
+  intro h
+  obtain ⟨f, hf, -⟩ := (meets_iff rows a b k).1 h
+  by_cases hk : k < rows.length
+  · exact hk
+  · rw [List.getElem?_eq_none (by omega)] at hf; cases hf
+
+/-- `bruteForce` is `none` exactly when no fragment row meets the query. -/
+theorem bruteForce_eq_none_iff (rows : List Row) (bait : Fragment) :
+    bruteForce rows bait = none ↔ ∀ k, meets rows bait.start bait.stop k = false := by
+  unfold bruteForce
+  constructor
+  · intro h k
+    cases hm : meets rows bait.start bait.stop k with
+    | false => rfl
+    | true =>
+      have hk := (mem_meeting rows _ _ k).2 hm
+      cases hl : meeting rows bait.start bait.stop with
+      | nil => rw [hl] at hk; cases hk
+      | cons x xs =>
+        rw [hl] at h
+        have : (x :: xs).getLast? = some ((x :: xs).getLast (by simp)) := List.getLast?_eq_some_getLast _
+        simp [this] at h
+  · intro h
+    have : meeting rows bait.start bait.stop = [] :=
+      filter_range_eq_nil _ _ (fun k _ => h k)
+    simp [this]
+
+/-- When `bruteForce` returns a result it is the slice between the least and the greatest meeting row. -/
+theorem bruteForce_eq_some (rows : List Row) (bait : Fragment) (o : OverlapResult)
+    (h : bruteForce rows bait = some o) :
+    ∃ i j, meets rows bait.start bait.stop i = true ∧ meets rows bait.start bait.stop j = true ∧
+      (∀ k, meets rows bait.start bait.stop k = true → i ≤ k ∧ k ≤ j) ∧
+      o = { bait := bait, start := (rowSpan rows i).1, stop := (rowSpan rows j).2,
+            rows := (rows.drop i).take (j + 1 - i), name := "matches".toList } := by
+  unfold bruteForce at h
+  simp only at h
+  split at h
+  · next i j hi hj =>
+    refine ⟨i, j, ?_, ?_, ?_, by simpa using h.symm⟩
+    · exact (mem_meeting _ _ _ i).1 (List.mem_of_head? hi)
+    · exact (mem_meeting _ _ _ j).1 (List.mem_of_getLast? hj)
+    · intro k hk
+      have hkm := (mem_meeting rows _ _ k).2 hk
+      unfold meeting at hi hj hkm
+      rw [List.head?_filter, List.find?_range_eq_some] at hi
+      have hkn : k < rows.length := by simpa using (List.mem_filter.1 hkm).1
+      constructor
+      · by_cases hlt : k < i
+        · have := hi.2.2 k hlt; simp [hk] at this
+        · omega
+      · -- greatest: by contradiction through the characterisation of the last hit
+        by_cases hlt : j < k
+        · exfalso
+          have hjm : meets rows bait.start bait.stop j = true :=
+            (mem_meeting _ _ _ j).1 (List.mem_of_getLast? hj)
+          -- the last element of an ascending list is ≥ every element
+          have hsorted : ((List.range rows.length).filter (meets rows bait.start bait.stop)).Pairwise (· < ·) :=
+            List.Pairwise.filter _ List.pairwise_lt_range
+          obtain ⟨ys, hys⟩ := List.getLast?_eq_some_iff.1 hj
+          rw [hys] at hsorted hkm
+          rw [List.pairwise_append] at hsorted
+          rcases List.mem_append.1 hkm with hk1 | hk1
+          · have := hsorted.2.2 k hk1 j (by simp); omega
+          · simp at hk1; omega
+        · omega
+  · cases h
+
+/-- the slice `i..j` really is rows `i, i+1, …, j` -/
+theorem slice_getElem? (rows : List Row) (i j t : Nat) :
+    ((rows.drop i).take (j + 1 - i))[t]? = if t < j + 1 - i then rows[i + t]? else none := by
+  simp [List.getElem?_take, List.getElem?_drop]
+
+/-! ### the property -/
+
+theorem meets_eq (rows : List Row) (a b : Int) (k : Nat) :
+    meets rows a b k = true ↔ fragAt rows k = true ∧ passes rows a b k := by
+  unfold meets fragAt passes rowSpan pre
+  split <;> simp_all
+
+/-- **C12, full strength, with fewer hypotheses than asked for**: neither `1 ≤ a ≤ b` nor
+    "fragments have length ≥ 1" is needed — only a non-empty scaffold (else the source raises ValueError)
+    and non-negative row lengths (monotone index). -/
+theorem find_overlaps_spec_strong (rows : List Row) (bait : Fragment) (hne : rows ≠ [])
+    (hlen : ∀ r ∈ rows, 0 ≤ r.length) :
+    findOverlaps rows bait = .ok (bruteForce rows bait) := by
+  rcases findOverlaps_cases rows bait hne hlen with ⟨h, hno⟩ | ⟨i, j, hij, hj, h, hfi, hfj, hpi, hpj, hall⟩
+  · rw [h]
+    have : bruteForce rows bait = none := by
+      rw [bruteForce_eq_none_iff]
+      intro k
+      cases hm : meets rows bait.start bait.stop k with
+      | false => rfl
+      | true =>
+        obtain ⟨h1, h2⟩ := (meets_eq _ _ _ _).1 hm
+        exact absurd h2 (hno k h1)
+    rw [this]
+  · rw [h]
+    have hmi : meets rows bait.start bait.stop i = true := (meets_eq _ _ _ _).2 ⟨hfi, hpi⟩
+    have hmj : meets rows bait.start bait.stop j = true := (meets_eq _ _ _ _).2 ⟨hfj, hpj⟩
+    have hall' : ∀ k, meets rows bait.start bait.stop k = true → i ≤ k ∧ k ≤ j := by
+      intro k hk
+      obtain ⟨h1, h2⟩ := (meets_eq _ _ _ _).1 hk
+      exact hall k h1 h2
+    have hh : (meeting rows bait.start bait.stop).head? = some i :=
+      head?_filter_range _ _ i (by omega) hmi (fun k _ hk => (hall' k hk).1)
+    have hl : (meeting rows bait.start bait.stop).getLast? = some j :=
+      getLast?_filter_range _ _ j hj hmj (fun k _ hk => (hall' k hk).2)
+    unfold bruteForce
+    simp only [hh, hl]
+    rfl
+
+/-- **C12 as stated in the task.** For every non-empty scaffold (any mixture of fragment and gap rows, gaps
+    first / last / consecutive, zero-length gaps, 1-bp rows, single-row scaffolds) and every query `[a, b]`,
+    `1 ≤ a ≤ b` (also ending or lying wholly beyond the scaffold end), the lookup does not raise and returns
+    exactly the brute-force answer. -/
+theorem find_overlaps_spec (rows : List Row) (bait : Fragment) (hne : rows ≠ [])
+    (_hq : 1 ≤ bait.start ∧ bait.start ≤ bait.stop) (hlen : ∀ r ∈ rows, 0 ≤ r.length)
+    (_hfrag : ∀ f, Row.frag f ∈ rows → 1 ≤ f.length) :
+    findOverlaps rows bait = .ok (bruteForce rows bait) :=
+  find_overlaps_spec_strong rows bait hne hlen
+
+/-- "never fails" -/
+theorem find_overlaps_never_fails (rows : List Row) (bait : Fragment) (hne : rows ≠ [])
+    (hlen : ∀ r ∈ rows, 0 ≤ r.length) : ∀ e, findOverlaps rows bait ≠ .error e := by
+  intro e h
+  rw [find_overlaps_spec_strong rows bait hne hlen] at h
+  cases h
+
+/-- A query that touches no fragment row (only gaps — leading, trailing, inner — or nothing at all)
+    returns `None`. -/
+theorem find_overlaps_only_gaps (rows : List Row) (bait : Fragment) (hne : rows ≠ [])
+    (hlen : ∀ r ∈ rows, 0 ≤ r.length)
+    (h : ∀ k, meets rows bait.start bait.stop k = false) :
+    findOverlaps rows bait = .ok none := by
+  rw [find_overlaps_spec_strong rows bait hne hlen, (bruteForce_eq_none_iff rows bait).2 h]
+
+/-- A query lying wholly beyond the scaffold end returns `None`. -/
+theorem find_overlaps_beyond_end (rows : List Row) (bait : Fragment) (hne : rows ≠ [])
+    (hlen : ∀ r ∈ rows, 0 ≤ r.length) (h : rowsLength rows < bait.start) :
+    findOverlaps rows bait = .ok none := by
+  apply find_overlaps_only_gaps rows bait hne hlen
+  intro k
+  cases hm : meets rows bait.start bait.stop k with
+  | false => rfl
+  | true =>
+    obtain ⟨h1, h2⟩ := (meets_eq _ _ _ _).1 hm
+    have hk := fragAt_lt rows k h1
+    have := pre_mono rows hlen (k + 1) rows.length (by omega)
+    have e : pre rows rows.length = rowsLength rows := by simp [pre]
+    unfold passes at h2
+    omega
+
+/-- Shape of every returned result: the rows are not empty, begin and end with a fragment row (leading and
+    trailing gaps are stripped), both end rows intersect the query, and the reported span is exactly as long
+    as the returned rows. -/
+theorem find_overlaps_result (rows : List Row) (bait : Fragment) (o : OverlapResult) (hne : rows ≠ [])
+    (hlen : ∀ r ∈ rows, 0 ≤ r.length) (h : findOverlaps rows bait = .ok (some o)) :
+    o.rows ≠ [] ∧ (∃ f, o.rows.head? = some (.frag f)) ∧ (∃ g, o.rows.getLast? = some (.frag g)) ∧
+    o.stop - o.start + 1 = rowsLength o.rows ∧ o.bait = bait ∧
+    o.start ≤ bait.stop ∧ bait.start ≤ o.stop := by
+  rw [find_overlaps_spec_strong rows bait hne hlen] at h
+  have h' : bruteForce rows bait = some o := by simpa using h
+  obtain ⟨i, j, hi, hj, hall, rfl⟩ := bruteForce_eq_some rows bait o h'
+  have hij : i ≤ j := (hall i hi).2
+  obtain ⟨fi, hfi, hi1, hi2⟩ := (meets_iff _ _ _ _).1 hi
+  obtain ⟨fj, hfj, hj1, hj2⟩ := (meets_iff _ _ _ _).1 hj
+  have hjn : j < rows.length := by
+    by_cases hk : j < rows.length
+    · exact hk
+    · rw [List.getElem?_eq_none (by omega)] at hfj; cases hfj
+  have hlen' : ((rows.drop i).take (j + 1 - i)).length = j + 1 - i := by
+    simp only [List.length_take, List.length_drop]; omega
+  have hhead : ((rows.drop i).take (j + 1 - i)).head? = some (.frag fi) := by
+    rw [List.head?_eq_getElem?, slice_getElem?]
+    have : 0 < j + 1 - i := by omega
+    simp [this, hfi]
+  refine ⟨?_, ⟨fi, hhead⟩, ⟨fj, ?_⟩, ?_, rfl, ?_, ?_⟩
+  · intro hnil
+    have hnil' : (rows.drop i).take (j + 1 - i) = [] := hnil
+    rw [hnil'] at hhead; cases hhead
+  · show ((rows.drop i).take (j + 1 - i)).getLast? = _
+    rw [List.getLast?_eq_getElem?, hlen', slice_getElem?]
+    have h1 : j + 1 - i - 1 < j + 1 - i := by omega
+    have h2 : i + (j + 1 - i - 1) = j := by omega
+    simp only [h1, if_true, h2, hfj]
+  · show rowsLength (rows.take (j + 1)) - (1 + rowsLength (rows.take i)) + 1
+        = rowsLength ((rows.drop i).take (j + 1 - i))
+    have e : j + 1 = i + (j + 1 - i) := by omega
+    have : rows.take (j + 1) = rows.take i ++ (rows.drop i).take (j + 1 - i) := by
+      rw [← List.take_add, ← e]
+    rw [this, rowsLength_append]; omega
+  · exact hi1
+  · exact hj2
+
+/-! ### hypotheses are satisfiable; concrete evaluations of both sides -/
+
+def fr (n : String) (len : Int) : Row := .frag { name := n.toList, start := 1, stop := len, strand := 1 }
+def gp (len : Int) : Row := .gap { length := len, gapType := "scaffold".toList }
+def q (a b : Int) : Fragment := { name := "s".toList, start := a, stop := b, strand := 1 }
+
+/-- leading gap (1-5), A (6-15), two consecutive gaps (16-18, 19-20), 1-bp B (21), a zero-length gap, C (22-26),
+    trailing gap (27-30) -/
+def demo : List Row := [gp 5, fr "A" 10, gp 3, gp 2, fr "B" 1, gp 0, fr "C" 5, gp 4]
+
+example : demo ≠ [] ∧ (∀ r ∈ demo, 0 ≤ r.length) ∧ (∀ f, Row.frag f ∈ demo → 1 ≤ f.length) ∧
+    (1 ≤ (q 17 40).start ∧ (q 17 40).start ≤ (q 17 40).stop) := by
+  refine ⟨by decide, by decide, ?_, by decide⟩
+  intro f hf
+  simp only [demo, fr, gp, List.mem_cons, Row.frag.injEq, List.not_mem_nil, or_false, reduceCtorEq,
+    false_or] at hf
+  rcases hf with rfl | rfl | rfl <;> decide
+
+/-- equality of lookup outcomes is decidable (only used to evaluate the examples below) -/
+instance decEqOutcome : DecidableEq (R (Option OverlapResult))
+  | .ok a, .ok b => if h : a = b then isTrue (by rw [h]) else isFalse (by intro h'; cases h'; exact h rfl)
+  | .error a, .error b => if h : a = b then isTrue (by rw [h]) else isFalse (by intro h'; cases h'; exact h rfl)
+  | .ok _, .error _ => isFalse (by intro h; cases h)
+  | .error _, .ok _ => isFalse (by intro h; cases h)
+
+-- the specification, evaluated
+example : bruteForce demo (q 1 5) = none := by decide                      -- leading gap only
+example : bruteForce demo (q 27 30) = none := by decide                    -- trailing gap only
+example : bruteForce demo (q 16 20) = none := by decide                    -- inner consecutive gaps only
+example : bruteForce demo (q 31 99) = none := by decide                    -- beyond the end
+example : bruteForce demo (q 1 6) =
+    some { bait := q 1 6, start := 6, stop := 15, rows := [fr "A" 10], name := "matches".toList } := by decide
+example : bruteForce demo (q 17 40) =                                       -- starts in a gap, ends past the end
+    some { bait := q 17 40, start := 21, stop := 26, rows := [fr "B" 1, gp 0, fr "C" 5],
+           name := "matches".toList } := by decide
+example : bruteForce demo (q 15 21) =
+    some { bait := q 15 21, start := 6, stop := 21, rows := [fr "A" 10, gp 3, gp 2, fr "B" 1],
+           name := "matches".toList } := by decide
+
+-- the lookup, evaluated independently of the theorem, on the same queries
+example : findOverlaps demo (q 1 5) = .ok none := by decide +kernel
+example : findOverlaps demo (q 27 30) = .ok none := by decide +kernel
+example : findOverlaps demo (q 16 20) = .ok none := by decide +kernel
+example : findOverlaps demo (q 31 99) = .ok none := by decide +kernel
+example : findOverlaps demo (q 1 6) = .ok (bruteForce demo (q 1 6)) := by decide +kernel
+example : findOverlaps demo (q 17 40) = .ok (bruteForce demo (q 17 40)) := by decide +kernel
+example : findOverlaps demo (q 15 21) = .ok (bruteForce demo (q 15 21)) := by decide +kernel
+example : findOverlaps demo (q 21 21) = .ok (bruteForce demo (q 21 21)) := by decide +kernel
+example : findOverlaps [gp 3] (q 1 2) = .ok (bruteForce [gp 3] (q 1 2)) := by decide +kernel
+example : findOverlaps [fr "A" 1] (q 1 1) = .ok (bruteForce [fr "A" 1] (q 1 1)) := by decide +kernel
+-- the empty scaffold raises ValueError as in the source (outside the theorem's hypotheses)
+example : findOverlaps [] (q 1 2) = .error .value := by decide +kernel
+
 end AgpTpf.C12
